@@ -5,6 +5,10 @@ HERE = os.path.dirname(os.path.dirname(os.path.abspath(__file__)))
 d = json.load(open(os.path.join(HERE, "evidence", "selftest.json")))
 metas = {os.path.basename(os.path.dirname(p)): json.load(open(p)) for p in glob.glob(os.path.join(HERE, "seeded", "*", "meta.json"))}
 rf = {("revert-" + r["commit"][:7]): r for r in json.load(open(os.path.join(HERE, "selftest", "reverted_fixes.json")))}
+import io, sys
+_out = io.StringIO()
+_real = sys.stdout
+sys.stdout = _out
 print("| change | property | what it needs to manifest | caught by (violation keys) |")
 print("|---|---|---|---|")
 for r in d["results"]:
@@ -16,3 +20,18 @@ for r in d["results"]:
     by = "; ".join(f"**{pid}** ({', '.join(k.split('/', 1)[1] for k in c['keys'][:2])})" if c["caught"] else f"{pid}: missed (exit {c['exit']})"
                    for pid, c in r["checks"].items())
     print(f"| {r['mutant']} | {r.get('property')} | {need} | {by} |")
+
+sys.stdout = _real
+txt = _out.getvalue()
+if "--update-design" in sys.argv:
+    p = os.path.join(HERE, "DESIGN.md")
+    s = open(p).read()
+    a, b = s.index("<!-- MATRIX-BEGIN -->"), s.index("<!-- MATRIX-END -->")
+    caught = sum(1 for r in d["results"] if r.get("applies") and any(c["caught"] for c in r["checks"].values()))
+    total = sum(1 for r in d["results"] if r.get("applies"))
+    head = f"{caught} of {total} changes are caught by at least one check ({len(d['results'])} listed; kinds: seeded = independent sub-agent, own = hand-written, reverted-fix = a fix: commit reverted).\n\n"
+    s = s[:a] + "<!-- MATRIX-BEGIN -->\n" + head + txt + s[b:]
+    open(p, "w").write(s)
+    print(f"DESIGN.md updated: {caught}/{total}")
+else:
+    print(txt)
